@@ -80,6 +80,7 @@ func Parse(fontInfo *sfnt.Font, input string) (lookups gtab.LookupList, err erro
 type parser struct {
 	tokens  <-chan item
 	backlog []item
+	line    int // line of the most recent item received from the lexer
 
 	fontInfo *sfnt.Font
 	cmap     cmap.Subtable
@@ -1343,7 +1344,11 @@ func (p *parser) readItem() item {
 		p.backlog = p.backlog[:n]
 		return item
 	}
-	return <-p.tokens
+	item := <-p.tokens
+	if item.line > 0 {
+		p.line = item.line
+	}
+	return item
 }
 
 func (p *parser) peek() item {
@@ -1488,5 +1493,11 @@ func (err *parseError) Error() string {
 
 func (p *parser) fatal(format string, a ...interface{}) {
 	msg := fmt.Sprintf(format, a...)
-	panic(&parseError{next: p.peek(), msg: msg})
+	next := p.peek()
+	if next.line == 0 {
+		// The lexer has stopped (after a lexical error or at the end of
+		// the input): report the line of the last item it produced.
+		next.line = p.line
+	}
+	panic(&parseError{next: next, msg: msg})
 }
